@@ -110,6 +110,28 @@ func checkC20Host(c c20Host) *evid.Fail {
 			res = evid.F("host-value:time", "time accessor returned %v for %v", v.AsDateTime(), want.toTime())
 			return
 		}
+		if ht, ok := host.(time.Time); ok {
+			if v.AsDateTime() != ht || v.AsObject() != interface{}(ht) {
+				res = evid.F("host-value:time-not-identical", "%s(time.Time %v): the accessor returns %v, which is not the value given (==)", c.Via, ht, v.AsDateTime())
+				return
+			}
+		}
+		if c.GoType == "time" {
+			// a value read from the clock (it carries a monotonic reading) through every constructor
+			now := time.Now()
+			for via, nv := range map[string]*variants.Variant{"VariantFromDateTime": variants.VariantFromDateTime(now), "NewVariant": variants.NewVariant(now), "VariantFromObject": variants.VariantFromObject(now)} {
+				if nv.Type() != variants.DateTime || nv.AsDateTime() != now {
+					res = evid.F("host-value:time-not-identical", "%s(time.Now()): the accessor returns %v, not the value given %v (==)", via, nv.AsDateTime(), now)
+					return
+				}
+			}
+			s := variants.EmptyVariant()
+			s.SetAsDateTime(now)
+			if s.AsDateTime() != now || !s.Equals(variants.NewVariant(now)) || !variants.NewVariant(now).Equals(s) || !s.Clone().Equals(s) {
+				res = evid.F("host-value:time-not-identical", "SetAsDateTime(time.Now()): accessor / Equals / Clone disagree with the value given")
+				return
+			}
+		}
 		// a variant built from a list keeps its own copy: later changes to the caller's list are invisible
 		if els, ok := host.([]*variants.Variant); ok && len(els) > 0 {
 			els[0] = variants.VariantFromString("changed by the caller")
@@ -308,6 +330,23 @@ func checkC20(c c20Case) *evid.Fail {
 					a = append(a, vNull())
 				}
 				model[s] = vArray(a...)
+			case "fillGap":
+				// SetByIndex two or more past the end, then one of the filler nulls is given a value in place
+				if model[s].K != "array" || frozen[s] {
+					continue
+				}
+				n0 := len(model[s].A)
+				idx := n0 + 2 + op.Idx%3
+				v.SetByIndex(idx, op.V.toVariant())
+				a := append([]val{}, model[s].A...)
+				for len(a) <= idx {
+					a = append(a, vNull())
+				}
+				a[idx] = op.V
+				g := n0 + op.Idx%2
+				v.GetByIndex(g).SetAsString("filled in place")
+				a[g] = vString("filled in place")
+				model[s] = vArray(a...)
 			case "getByIndex":
 				if model[s].K != "array" || len(model[s].A) == 0 {
 					continue
@@ -397,7 +436,7 @@ func c20NonTrivial(c c20Case) bool {
 			}
 		case "clone":
 			arrayMade = true
-		case "setByIndex", "setLength", "callerAppend":
+		case "setByIndex", "setLength", "callerAppend", "fillGap":
 			if arrayMade {
 				return true
 			}
@@ -443,7 +482,7 @@ func genC20Value(t *rapid.T) val {
 func TestC20_RapidSM(t *testing.T) {
 	rec := evid.New("C20", "TestC20_RapidSM", "C20", c20Rule)
 	defer finish(t, rec)
-	opsKinds := []string{"set", "set", "fromArray", "setByIndex", "setByIndex", "setLength", "getByIndex", "assign", "assignNil", "clone", "clone", "clear", "equals", "equals", "callerAppend", "callerAppend"}
+	opsKinds := []string{"set", "set", "fromArray", "setByIndex", "setByIndex", "setLength", "getByIndex", "assign", "assignNil", "clone", "clone", "clear", "equals", "equals", "callerAppend", "callerAppend", "fillGap"}
 	runRapid(t, pick(40000, 300000), 20, func(rt *rapid.T) {
 		n := rapid.IntRange(1, 14).Draw(rt, "n")
 		var ops []c20Op
@@ -458,7 +497,7 @@ func TestC20_RapidSM(t *testing.T) {
 					v = vArray(v)
 				}
 				op.V = v
-			case "setByIndex":
+			case "setByIndex", "fillGap":
 				op.V = genC20Elem(rt)
 			}
 			ops = append(ops, op)
@@ -489,7 +528,7 @@ func TestC20_ExhaustiveShortHistories(t *testing.T) {
 		{Op: "setByIndex", Slot: 0, Idx: 0, V: vString("w")}, {Op: "setByIndex", Slot: 1, Idx: 2, V: vInt(9)}, {Op: "setLength", Slot: 1, Idx: 2},
 		{Op: "clone", Slot: 1, Src: 0}, {Op: "clone", Slot: 0, Src: 1}, {Op: "assign", Slot: 1, Src: 0}, {Op: "clear", Slot: 0},
 		{Op: "equals", Slot: 0, Src: 1}, {Op: "getByIndex", Slot: 1, Idx: 0},
-		{Op: "set", Slot: 1, V: vArray()}, {Op: "callerAppend", Slot: 1}, {Op: "callerAppend", Slot: 0},
+		{Op: "set", Slot: 1, V: vArray()}, {Op: "callerAppend", Slot: 1}, {Op: "callerAppend", Slot: 0}, {Op: "fillGap", Slot: 1, Idx: 1, V: vInt(5)},
 		{Op: "set", Slot: 0, V: vArray(vArray(vInt(1), vInt(2)), vArray(vInt(1), vInt(2)))}, {Op: "set", Slot: 1, V: vArray(vArray(vInt(1), vInt(2)), vArray(vInt(1), vInt(3)))},
 	}
 	depth := pick(4, 5)
